@@ -143,7 +143,7 @@ def run_case(desc):
     keys, sample = [], None
     with tmpdir("c18-") as scratch:
         for i in range(desc["start"], desc["start"] + desc["n"]):
-            case = daggen.case_from_seed(desc["seed"], i)
+            case = daggen.case_from_seed(desc["seed"], i, p_falsy=0.15 if i % 2 else 0.0)
             rng = random.Random(f"c18:{desc['seed']}:{i}")
             llog, elog = probes.new_log(scratch, "lazy"), probes.new_log(scratch, "eager")
             try:
